@@ -417,6 +417,7 @@ func h2Scenario1(seed int64, idx int, dir string, acts []h2Act, ca *harnessCA, c
 			}
 		}
 	}()
+	closedA := false
 	sentFC := map[uint32]int{}
 	sentFCc := 0
 	sndOff := map[uint32]int{}
@@ -545,6 +546,20 @@ func h2Scenario1(seed int64, idx int, dir string, acts []h2Act, ca *harnessCA, c
 			A.wmu.Lock()
 			err = A.fr.WritePing(false, [8]byte{byte(a.N), 'p', 'i', 'n', 'g', 0, 0, 7})
 			A.wmu.Unlock()
+		case "close":
+			// the sender ends its side of the connection (it goes on reading): what it has sent is still owed to the receiver
+			sc.log("a_close")
+			closedA = true
+			A.wmu.Lock()
+			switch c := A.conn.(type) {
+			case *tls.Conn:
+				err = c.CloseWrite()
+			case *net.TCPConn:
+				err = c.CloseWrite()
+			default:
+				err = fmt.Errorf("cannot half-close a %T", A.conn)
+			}
+			A.wmu.Unlock()
 		case "goaway":
 			sc.log("a_goaway")
 			A.wmu.Lock()
@@ -609,6 +624,20 @@ func h2Scenario1(seed int64, idx int, dir string, acts []h2Act, ca *harnessCA, c
 	}
 	sc.silence(150*time.Millisecond, 3*time.Second)
 	sc.log("quiet")
+	if closedA {
+		// the sender is done: whatever it has sent and the receiver's credit covers must have arrived by now
+		bmu.Lock()
+		rest := 0
+		for s, off := range sndOff {
+			rest += off - rcvOff[s]
+		}
+		for s, off := range sndOff {
+			if rem := off - rcvOff[s]; rem > 0 && grantS[s] >= rem && grantC >= rest {
+				sc.problem(fmt.Sprintf("C10:stranded: the sender ended its side of the connection after sending %d octets on stream %d; the receiver grants %d (stream) / %d (connection) and has received %d", off, s, grantS[s], grantC, rcvOff[s]))
+			}
+		}
+		bmu.Unlock()
+	}
 	// direct checks at quiescence
 	amu.Lock()
 	for s, n := range sentFC {
